@@ -389,24 +389,8 @@ func (g *Gen) order(p *ps.Program) {
 	for i, pos := range epos {
 		toks[pos] = fmt.Sprintf("emitter:%d", i)
 	}
-	// The unchanged tool applies -auto-instrument only to tasks listed after
-	// cff.InstrumentFlow (order dependence, kept in stream known:aiorder):
-	// main streams list InstrumentFlow before the first task.
-	if p.Kind == "flow" && p.AutoInstr && p.InstrDir {
-		ii, ft := -1, -1
-		for i, tk := range toks {
-			n, _ := ps.SplitTok(tk)
-			if n == "instr" {
-				ii = i
-			}
-			if n == "task" && ft < 0 {
-				ft = i
-			}
-		}
-		if ii >= 0 && ft >= 0 && ii > ft {
-			toks[ii], toks[ft] = toks[ft], toks[ii]
-		}
-	}
+	// cff.InstrumentFlow may be listed anywhere among the options (the order dependence of
+	// -auto-instrument was defect F11, repaired; stream known:aiorder keeps the extreme case).
 	p.Order = toks
 	FillPos(p)
 }
